@@ -1,0 +1,26 @@
+//go:build verif
+
+package parser
+
+// Ghost lemma functions for the deductive checks in /verif (compiled only under the build tag "verif", never called).
+// Each one applies the real decoder functions to a line built the way Message.WriteTo builds it; its contract (in
+// verif_contracts.go) states what the decoder must make of that line, and is proved from the contracts of
+// NextChunk and FieldParser.scanSegment alone. Together they say: every line written by the encoder is consumed by
+// the decoder as exactly one line and yields exactly the field it was written from.
+
+func lemmaLineSplit(prefix, x, rest string) (chunk, remaining string, hasNewline bool) {
+	return NextChunk(prefix + x + "\n" + rest)
+}
+
+func lemmaBlankLine(rest string) (chunk, remaining string, hasNewline bool) {
+	return NextChunk("\n" + rest)
+}
+
+func lemmaScanData(f *FieldParser, x string, out *Field) bool  { return f.scanSegment("data: "+x, out) }
+func lemmaScanEvent(f *FieldParser, x string, out *Field) bool { return f.scanSegment("event: "+x, out) }
+func lemmaScanID(f *FieldParser, x string, out *Field) bool    { return f.scanSegment("id: "+x, out) }
+func lemmaScanRetry(f *FieldParser, x string, out *Field) bool { return f.scanSegment("retry: "+x, out) }
+func lemmaScanComment(f *FieldParser, x string, out *Field) bool {
+	return f.scanSegment(": "+x, out)
+}
+func lemmaScanBlank(f *FieldParser, out *Field) bool { return f.scanSegment("", out) }
